@@ -473,14 +473,10 @@ def row_class(case, r):
     nv = len(r.coeffs)
     if r.linear and r.route in ("lin", "props", "new", "ilin") and all(abs(c) < Fraction(1, 10 ** 12) for c in r.coeffs.values()):
         return "lin_zero_coeffs"             # every coefficient is (below 1e-12, treated as) zero: the row 0 rel K is never tested (D11)
-    if r.rel == "ne" and fl:
-        return "float_ne"                    # FloatLinNe / NotEquals never exclude anything from a float interval
     if r.route == "props" and r.text.split()[1] == "eq" and nv == 1 and fl:
         c = float(r.const / r.coeffs[fl[0]]); st = float(case.step)
         if not (math.ceil(c / st) * st == c and math.floor(c / st) * st == c):
             return "eq_const_offgrid"        # Eq<VarId,Val>: the variable is quantised to the grid, the constant view accepts no tolerance
-    if r.linear and lowered_float(case, r) and r.rel == "eq" and ints and fl:
-        return "floatlineq_mixed"            # FloatLinEq: float variables are quantised with tolerances, integer ones get exact ceil/floor
     return None
 
 def fast_path_applies(case):
@@ -496,6 +492,22 @@ def fast_path_applies(case):
             return False
         return True
     return "fp" in case.flags and case.entry[0] in ("min", "max") and not any(pending(r) for r in case.rows)
+
+def mixed_eq_chain(case):
+    """a float linear EQUALITY over integer and float variables shares a float variable with ANOTHER equality row that is
+    lowered to FloatLinEq.  (What is left of the former class floatlineq_mixed after the repair "a float linear equality gives
+    its integer variables the slack its float terms have": the mixed row alone is answered correctly; chained to a second
+    equality whose solution is off the step grid, a value of the integer variable can still be lost during the search - x0 =
+    (x2 - 2.375)/0.75 and x3 = (29 + x0)/3 at precision 3: x2 = 1 (x0 = -1.8333.., x3 = 9.0555..) is found when x2 is declared
+    1..1 and lost when it is declared 1..2.  Same cause as float_eq_offgrid, symptom a wrong optimum instead of NoSolution.)"""
+    eqs = [r for r in case.rows if r.linear and r.rel == "eq" and lowered_float(case, r)]
+    for r in eqs:
+        fl = set(v for v in r.coeffs if case.is_float(v))
+        if fl and any(not case.is_float(v) for v in r.coeffs):
+            for q in eqs:
+                if q is not r and fl & set(v for v in q.coeffs if case.is_float(v)):
+                    return True
+    return False
 
 def bounds_pinch_offgrid(case):
     """some float variable is pinched by var-constant comparisons posted at the props level (and its declared bounds) to a
